@@ -918,6 +918,13 @@ GLOBALS = {
 
 # ------------------------------------------------------------------ methods of builtin values
 def method_of(eng, obj, name):
+    if getattr(eng, 'digit_mode', False):
+        from . import digits as D
+        if isinstance(obj, D.DBase):
+            try:
+                return D.method(eng, obj, name)
+            except D.EngineErrorD as ex:
+                raise EngineError(str(ex))
     if isinstance(obj, SuperProxy):
         fn, c = eng.repo.find_method(obj.obj.cls, name, after=obj.cls)
         if fn is None:
@@ -1183,6 +1190,13 @@ def norm_index(eng, i, n, what='index'):
 
 
 def getitem(eng, base, idx):
+    if getattr(eng, 'digit_mode', False):
+        from . import digits as D
+        if isinstance(base, D.DBase):
+            try:
+                return D.getitem(eng, base, idx)
+            except D.EngineErrorD as ex:
+                raise EngineError(str(ex))
     if isinstance(base, OptObj):
         base = base.obj
     if (is_num(base)) and isinstance(idx, tuple) and idx and idx[0] is Ellipsis and all(x is None for x in idx[1:]):
